@@ -2295,3 +2295,87 @@ func ruleDimensionItemSpellings(c *core.Ctx) {
 			"the dimension item decoder has no branch for the scalar tag "+tag+": the documented expanded spelling `dimensions: [x, y]` (names) / `[3, 4]` (lengths) is rejected although the shorthand `T[x, y]` / `T[3, 4]` is accepted")
 	}
 }
+
+// P10: decoding YAML into the address of a pointer can null it. yaml.v3 decodes a null node (`~`, `null`, an empty
+// document) into a **T by setting the *T to nil, even when it pointed to a prepared value. Every Decode /
+// DecodeWithOptions whose argument is `&p` with p itself a pointer must therefore be skipped for null nodes (a test of
+// the node's Tag against "!!null" around it) or be followed by a nil test of p — otherwise the next use of p (its
+// position, its fields) dereferences nil on an input that merely says "null".
+func ruleDecodeIntoPointerPointer(c *core.Ctx) {
+	const rule = "P10"
+	c.Rule(rule, "front end: a yaml Decode/DecodeWithOptions into `&p` where p is a pointer is guarded by a `Tag != \"!!null\"` test or followed by a nil test of p", 1)
+	n := 0
+	for _, d := range c.AllDecls() {
+		if d.Body == nil || !frontEndFile(c.Fset.Position(d.Pos()).Filename) {
+			continue
+		}
+		info := c.DeclPkg(d).TypesInfo
+		parent := map[ast.Node]ast.Node{}
+		var stack []ast.Node
+		ast.Inspect(d.Body, func(x ast.Node) bool {
+			if x == nil {
+				stack = stack[:len(stack)-1]
+				return true
+			}
+			if len(stack) > 0 {
+				parent[x] = stack[len(stack)-1]
+			}
+			stack = append(stack, x)
+			return true
+		})
+		ast.Inspect(d.Body, func(x ast.Node) bool {
+			ce, ok := x.(*ast.CallExpr)
+			if !ok || len(ce.Args) == 0 {
+				return true
+			}
+			f := core.Callee(info, ce)
+			if f == nil {
+				return true
+			}
+			switch core.FullName(f) {
+			case "(gopkg.in/yaml.v3.Node).Decode", "(gopkg.in/yaml.v3.Node).DecodeWithOptions", "(gopkg.in/yaml.v3.Decoder).Decode":
+			default:
+				return true
+			}
+			ue, ok := ast.Unparen(ce.Args[0]).(*ast.UnaryExpr)
+			if !ok || ue.Op != token.AND {
+				return true
+			}
+			obj := identObj(info, ue.X)
+			if obj == nil {
+				return true
+			}
+			if _, isPtr := obj.Type().Underlying().(*types.Pointer); !isPtr {
+				return true
+			}
+			n++
+			key := c.FuncName(d) + "/Decode(&" + obj.Name() + ")"
+			// (a) a test of a Tag against "!!null" among the enclosing conditions
+			guarded := false
+			for cur := parent[ast.Node(ce)]; cur != nil; cur = parent[cur] {
+				if is, ok := cur.(*ast.IfStmt); ok && strings.Contains(types.ExprString(is.Cond), ".Tag") && strings.Contains(types.ExprString(is.Cond), `"!!null"`) {
+					guarded = true
+				}
+			}
+			// (b) a nil test of the variable after the call
+			if !guarded {
+				ast.Inspect(d.Body, func(y ast.Node) bool {
+					be, ok := y.(*ast.BinaryExpr)
+					if !ok || be.Pos() < ce.End() || (be.Op != token.EQL && be.Op != token.NEQ) {
+						return true
+					}
+					if (identObj(info, be.X) == obj && info.Types[be.Y].IsNil()) || (identObj(info, be.Y) == obj && info.Types[be.X].IsNil()) {
+						guarded = true
+					}
+					return true
+				})
+			}
+			c.Check(guarded, rule, key, ce.Pos(), "null nodes are skipped, or the pointer is nil-tested afterwards",
+				"`"+obj.Name()+"` is a pointer and is decoded through its address: a YAML null at this place sets it to nil and the following use dereferences nil (panic instead of a diagnostic)")
+			return true
+		})
+	}
+	if n == 0 {
+		c.Undecided(rule, "decode sites", 0, "no Decode(&pointer) site found")
+	}
+}
